@@ -4,6 +4,8 @@
    digit otherwise; plus agreement with the model. *)
 From Coq Require Import List ZArith Bool String.
 From JM Require Import Base.Outcome Base.Bytes Num.Dec Json.Value Model.Api Checks.Common.
+(* text-only cases (model = implementation) may accompany the cases of this checker *)
+From JM Require Export Checks.Basic.
 Import ListNotations.
 Open Scope Z_scope.
 
